@@ -115,6 +115,10 @@ def main(tier, seed, replay=None):
         s, _ = specgen.gen_spec(seed * 100 + i)
         corpus.append((f"gen{i}", s))
     corpus.append(("freeform", freeform_spec()))
+    bt = freeform_spec()
+    bt["info"]["title"] = ""                      # a blank title (the header has nothing else to say about the document)
+    bt["info"]["description"] = "rocket \U0001F680 and -0 stay what they are"
+    corpus.append(("blanktitle", bt))
     if replay:
         r = json.load(open(replay))
         corpus = [("replay", r["spec"])]
@@ -127,11 +131,13 @@ def main(tier, seed, replay=None):
                     ("yaml", yaml.safe_dump(shuffle_keys(spec, rnd), sort_keys=False, allow_unicode=True), "yaml"),
                     ("yml", yaml.safe_dump(spec, sort_keys=True, allow_unicode=True), "yml"),
                     ("sorted", json.dumps(spec, sort_keys=True), "json"), ("reversed", json.dumps(reverse_keys(spec), indent=1), "json")]
-        if name in ("freeform", "replay"):
+        if name in ("freeform", "blanktitle", "replay"):
             variants += [(f"rerun{k}", json.dumps(spec), "json") for k in range(2, 7)]
             variants += [(f"env{k}", json.dumps(spec), "json") for k in range(len(ENVS))]
             # the output location already holds (longer) files from an earlier run
             variants += [("dirty", json.dumps(spec), "json")]
+            # the same bytes under another file name; the same document with insignificant white space around it
+            variants += [("renamed", json.dumps(spec), "json"), ("padded", "\n  \t" + json.dumps(spec, indent=2) + "\n\n", "json")]
         for mode in MODES:
             for vname, text, ext in variants:
                 jobs.append((name, mode, vname, text, ext))
@@ -140,7 +146,7 @@ def main(tier, seed, replay=None):
         name, mode, vname, text, ext = j
         base = os.path.join(d, f"{name}_{mode}_{vname}")
         os.makedirs(base, exist_ok=True)
-        sp = os.path.join(base, f"spec.{ext}")
+        sp = os.path.join(base, f"spec.{ext}" if vname != "renamed" else f"inventory-v2.{ext}")
         open(sp, "w").write(text)
         outp = os.path.join(base, "out" if mode.endswith("-mod") else "out.rs")
         env = None
@@ -165,7 +171,7 @@ def main(tier, seed, replay=None):
     for name, spec in corpus:
         for mode in MODES:
             rc0, base, t0 = by[(name, mode, "base")]
-            for v in ["rerun", "perm1", "perm2", "yaml", "yml", "sorted", "reversed"] + ([f"rerun{k}" for k in range(2, 7)] + [f"env{k}" for k in range(len(ENVS))] + ["dirty"] if name in ("freeform", "replay") else []):
+            for v in ["rerun", "perm1", "perm2", "yaml", "yml", "sorted", "reversed"] + ([f"rerun{k}" for k in range(2, 7)] + [f"env{k}" for k in range(len(ENVS))] + ["dirty", "renamed", "padded"] if name in ("freeform", "blanktitle", "replay") else []):
                 rc, outs, t = by[(name, mode, v)]
                 n_cmp += 1
                 if rc != rc0:
